@@ -175,6 +175,9 @@ def cut_inside_match(case):
 
 # ---------------------------------------------------------------------------
 
+_STOP = object()
+
+
 def outcome(task):
     """Normalise what a read call did."""
     if not task.done():
@@ -184,6 +187,8 @@ def outcome(task):
     exc = task.exception()
     if exc is None:
         res = task.result()
+        if res is _STOP:
+            return ('stop', [])
         if isinstance(res, tuple) and len(res) == 2:
             return ('collect', dec(res[0]), dec(res[1]), '-')
         if isinstance(res, asyncssh.SSHCompletedProcess):
@@ -325,6 +330,8 @@ class Replay:
         self.exit_sent = None
         self.machinery = None
         self.desync = None
+        self.iters = {}          # dt -> async iterator of the reader
+        self.ae_pred = None
         self.targets = {}        # dt -> [target record, ...] (redirections;
                                  # a later record replaced the earlier one)
         self.steps_done = 0
@@ -453,6 +460,24 @@ class Replay:
             async def collect():
                 return self.proc.collect_output()
             coro = collect()
+        elif kind == 'next':
+            # one step of "async for line in reader"
+            it = self.iters.get(dt)
+            if it is None:
+                it = self.iters[dt] = self.readers[dt].__aiter__()
+
+            async def nxt():
+                try:
+                    return await it.__anext__()
+                except StopAsyncIteration:
+                    self.iters.pop(dt, None)
+                    return _STOP
+                except BaseException:
+                    # an exception ends the application's "async for"; the
+                    # next one iterates the reader afresh
+                    self.iters.pop(dt, None)
+                    raise
+            coro = nxt()
         else:
             rd = self.readers[dt]
             if kind == 'read':
@@ -466,6 +491,7 @@ class Replay:
                 coro = rd.readuntil(s, msl) if msl else rd.readuntil(s)
         task = self.loop.create_task(coro)
         spec = (kind, n, sep)
+        self.log.append(('start', dt, spec))
         self.tasks[dt] = (task, spec)
         task.add_done_callback(lambda t, dt=dt, spec=spec:
                                self.completed.append((dt, spec, t)))
@@ -489,12 +515,23 @@ class Replay:
             else:
                 fin.append([dt, out[0], out[1], [], '-'])
         self.completed = []
+        # at_eof() of every stream is polled after every step
+        self.ae_obs = []
+        for dt in self.dts:
+            if dt in self.readers:
+                v = bool(self.readers[dt].at_eof())
+                self.ae_obs.append(v)
+                self.log.append(('ateof', dt, v))
         return fin
 
-    def compare(self, step, label, fin, pred):
+    def compare(self, step, label, fin, pred, ae=None):
         if fin != pred:
             self.divergences.append(
                 f'step {step} {label[:5]}: observed {fin} predicted {pred}')
+        elif ae is not None and list(ae) != self.ae_obs[:len(ae)]:
+            self.divergences.append(
+                f'step {step} {label[:5]}: at_eof() observed {self.ae_obs} '
+                f'predicted {ae}')
 
     # -- redirections --------------------------------------------------
     def redirect(self, dt):
@@ -584,13 +621,16 @@ class Replay:
             if k == 'emit':
                 self.emit(lab[1], lab[2], lab[3])
             elif k == 'run':
-                self.compare(step, lab, self.run(), lab[1])
+                self.compare(step, lab, self.run(), lab[1],
+                             lab[2] if len(lab) > 2 else None)
             elif k == 'call':
                 self.start_call(lab[1], lab[2], lab[3], lab[4])
-                self.compare(step, lab, self.run(), lab[5])
+                self.compare(step, lab, self.run(), lab[5],
+                             lab[6] if len(lab) > 6 else None)
             elif k == 'redirect':
                 self.redirect(lab[1])
-                self.compare(step, lab, self.run(), lab[2])
+                self.compare(step, lab, self.run(), lab[2],
+                             lab[4] if len(lab) > 4 else None)
             if self.machinery or self.desync:
                 break
         self.steps_done = step
@@ -745,8 +785,12 @@ def judge(rep):
             return 'after-collect'
         return ''
 
+    marks_ctx = ['']
+    at_eof_at_start = {}
+
     def bad(clause, dt, spec, detail):
-        ctx = context(dt)
+        ctx = context(dt) or marks_ctx[0]
+        marks_ctx[0] = ''
         if not ctx and spec and spec[0] == 'until' and \
                 sep_shape(spec[2]) == 'nested':
             ctx = 'nested-separators'
@@ -789,11 +833,54 @@ def judge(rep):
         if ev[0] == 'end':
             end = ev
             continue
+        if ev[0] == 'start':
+            d0 = ev[1]
+            at_eof_at_start[d0] = d0 in pd and eof_arrived and \
+                pd[d0] == arrived_n[d0] and pm[d0] == marks_arrived[d0] and \
+                all(firm_open.values())
+            continue
+        if ev[0] == 'ateof':
+            _, dt, val = ev
+            if dt in redirected:
+                continue
+            own_done = pd[dt] == arrived_n[dt] and \
+                pm[dt] == marks_arrived[dt]
+            if val and not (eof_arrived and own_done):
+                viol.append(('at-eof-early', ('ateof', 0, NO_SEP),
+                             f'{dt}: at_eof() is True, EOF arrived '
+                             f'{eof_arrived}, {arrived_n[dt] - pd[dt]} units '
+                             f'of it unread', context(dt)))
+            elif not val and eof_arrived and own_done and \
+                    all(firm_open.values()):
+                # nothing can be held back by the channel (every chunk
+                # arrived below the buffer limit), so EOF has reached the
+                # session; how much the OTHER stream holds is irrelevant
+                viol.append(('eof-report', ('ateof', 0, NO_SEP),
+                             f'{dt}: at_eof() is False although EOF has '
+                             f'arrived and all of its data was consumed '
+                             f'(unread on other streams: '
+                             f'{unread_total()})', context(dt)))
+            continue
         if ev[0] == 'target':
             targets.append(ev)
             continue
         _, dt, spec, out = ev
         kind, n, sep = spec
+        if kind == 'next':
+            # one step of "async for": stop at EOF, else a readline()
+            own_done = pd[dt] == arrived_n[dt] and \
+                pm[dt] == marks_arrived[dt]
+            if out[0] == 'stop':
+                if not (eof_arrived and own_done):
+                    bad('stop-before-eof', dt, spec,
+                        f'iteration stopped, EOF arrived {eof_arrived}, '
+                        f'{arrived_n[dt] - pd[dt]} units unread')
+                continue
+            if at_eof_at_start.get(dt):
+                bad('iteration-not-stopped', dt, spec,
+                    f'returned {out} although EOF has arrived and all of '
+                    f'the stream was consumed')
+            kind = 'line'
         if kind == 'collect':
             _, o, e, _x = out
             for d, v in (('out', o), ('err', e)):
@@ -877,8 +964,11 @@ def judge(rep):
         term_here = at_marker or at_end
         seof_here = nxt is not None and nxt[0] == '!seof' and not v and \
             nxt[2] <= pd[dt] <= nxt[1]
-        escape = W > 0 and unread_before >= W and \
+        # the designed escape: a partial (non-empty: an empty result reads
+        # as EOF) result when the buffer limit is reached
+        escape = W > 0 and unread_before >= W and len(v) > 0 and \
             len(v) + other_unread >= W
+        empty_escape = W > 0 and unread_before >= W and not v
         if kind in ('read', 'exact') and n == 0:
             if v or out[0] != 'ret':
                 bad('read-zero', dt, spec, f'{out}')
@@ -934,9 +1024,15 @@ def judge(rep):
                 elif not v and seof_here and kind == 'line':
                     pm[dt] += 1
                 elif not (term_here or escape):
+                    if empty_escape and not context(dt):
+                        marks_ctx[0] = 'empty-escape'
                     bad('partial-without-cause', dt, spec,
-                        f'partial {v} but no EOF/marker there and the '
-                        f'buffer limit {W} not reached: unread {avail} '
+                        f'partial {v} but no EOF/marker there and '
+                        + ('an empty result reads as EOF (the buffer limit '
+                           f'{W} is reached only through other streams)'
+                           if empty_escape else
+                           f'the buffer limit {W} not reached') +
+                        f': unread {avail} '
                         f'(+{other_unread} on other streams), eof arrived '
                         f'{eof_arrived}, next marker {nxt}')
                 if out[0] in ('inc',) or kind == 'line':
